@@ -67,6 +67,7 @@ deriving Repr, DecidableEq
 
 inductive PanicV
   | err (e : ErrV)
+  | lib                      -- a string panic raised by the library itself (misuse of the API)
   | str (msg : Str)
   | other (text : Str)       -- `fmt.Sprintf("%v", v)`
 deriving Repr, DecidableEq
@@ -99,9 +100,9 @@ deriving Repr, DecidableEq
 /-! ## canonical JSON rendering -/
 
 def q (s : Str) : Str := 34 :: s ++ [34]                    -- "s"  (s is plain: no escapes needed)
-def replySubj : Str := str "REPLY"
+def replySubj : Str := b!"REPLY"
 
-def jstr (w : String) : Str := q (str w)
+
 
 def obj (ms : List (Str × Str)) : Str :=
   123 :: (joinWith 44 (ms.map fun (k, v) => q k ++ 58 :: v)) ++ [125]
@@ -112,14 +113,19 @@ where joinWith (sep : Nat) : List Str → Str
 
 def arr (xs : List Str) : Str := 91 :: (obj.joinWith 44 xs) ++ [93]
 
-def sortMs (ms : List (Str × Str)) : List (Str × Str) := (ms.toArray.qsort (fun a b => a.1 < b.1)).toList
+/-- insertion sort by key (structural, so it reduces in proofs) -/
+def insertMs (x : Str × Str) : List (Str × Str) → List (Str × Str)
+  | [] => [x]
+  | y :: r => if x.1 < y.1 then x :: y :: r else y :: insertMs x r
+
+def sortMs (ms : List (Str × Str)) : List (Str × Str) := ms.foldr insertMs []
 
 def intText (i : Int) : Str := str (toString i)
 
 /-- the message a non-`*Error` error gets -/
-def internalMsg (msg : Str) : Str := str "Internal error: " ++ msg
+def internalMsg (msg : Str) : Str := b!"Internal error: " ++ msg
 
-def errObj (code msg : Str) : Str := obj [(str "code", q code), (str "message", q msg)]
+def errObj (code msg : Str) : Str := obj [(b!"code", q code), (b!"message", q msg)]
 
 /-- `metaObject`: headers as `{"K":["v",…]}`, status; `none` when nothing is set -/
 structure Meta where
@@ -131,24 +137,24 @@ def Meta.render (m : Meta) : Option Str :=
   if m.headers.isEmpty ∧ m.status = 0 then none
   else some (obj (
     (if m.headers.isEmpty then [] else
-      [(str "header", obj (sortMs (m.headers.map fun (k, vs) => (k, arr (vs.map q)))))]) ++
-    (if m.status = 0 then [] else [(str "status", intText m.status)])))
+      [(b!"header", obj (sortMs (m.headers.map fun (k, vs) => (k, arr (vs.map q)))))]) ++
+    (if m.status = 0 then [] else [(b!"status", intText m.status)])))
 
 def withMeta (ms : List (Str × Str)) (m : Option Str) : Str :=
-  obj (sortMs (ms ++ (match m with | some t => [(str "meta", t)] | none => [])))
+  obj (sortMs (ms ++ (match m with | some t => [(b!"meta", t)] | none => [])))
 
-def respError (code msg : Str) (m : Option Str) : Str := withMeta [(str "error", errObj code msg)] m
-def respResult (r : Str) (m : Option Str) : Str := withMeta [(str "result", r)] m
+def respError (code msg : Str) (m : Option Str) : Str := withMeta [(b!"error", errObj code msg)] m
+def respResult (r : Str) (m : Option Str) : Str := withMeta [(b!"result", r)] m
 
 /-- placeholder for error texts produced by Go itself (encoding/json messages) -/
-def goErr : Str := str "<go-error>"
+def goErr : Str := b!"<go-error>"
 
-def codeInternal : Str := str "system.internalError"
-def codeNotFound : Str := str "system.notFound"
-def codeMethodNotFound : Str := str "system.methodNotFound"
-def codeInvalidParams : Str := str "system.invalidParams"
-def codeInvalidQuery : Str := str "system.invalidQuery"
-def codeAccessDenied : Str := str "system.accessDenied"
+def codeInternal : Str := b!"system.internalError"
+def codeNotFound : Str := b!"system.notFound"
+def codeMethodNotFound : Str := b!"system.methodNotFound"
+def codeInvalidParams : Str := b!"system.invalidParams"
+def codeInvalidQuery : Str := b!"system.invalidQuery"
+def codeAccessDenied : Str := b!"system.accessDenied"
 
 def errVParts : ErrV → Str × Str
   | .res c m => (c, m)
@@ -171,7 +177,7 @@ def emit (s : St) (e : Eff) : St := { s with effs := s.effs ++ [e] }
 
 /-- `Request.reply` -/
 def reply (s : St) (payload : Str) : Step :=
-  if s.replied then .panic s (.str (str "res: response already sent on request"))
+  if s.replied then .panic s .lib
   else .cont (emit { s with replied := true } (.pub replySubj payload))
 
 def metaOf (s : St) : Option Str := s.mt.render
@@ -191,13 +197,13 @@ def svcEvent (s : St) (subj : Str) (payload : Option JV) : St :=
   | none => emit s (.pub subj [])
   | some v => if v.ok then emit s (.pub subj v.text) else s
 
-def evSubj (r : ReqIn) (name : Str) : Str := str "event." ++ r.rname ++ 46 :: name
+def evSubj (r : ReqIn) (name : Str) : Str := b!"event." ++ r.rname ++ 46 :: name
 
 def isValidPartB (p : Str) : Bool :=
   !p.isEmpty && p.all (fun r => !(r < 33 || r > 126 || r = 63 || r = 42 || r = 62 || r = 46))
 
-def reserved : List Str := [str "change", str "delete", str "add", str "remove", str "patch", str "reaccess",
-  str "unsubscribe", str "query"]
+def reserved : List Str := [b!"change", b!"delete", b!"add", b!"remove", b!"patch", b!"reaccess",
+  b!"unsubscribe", b!"query"]
 
 def isValidRIDB (rid : Str) : Bool :=
   let rec go : Bool → Str → Bool
@@ -209,95 +215,95 @@ def isValidRIDB (rid : Str) : Bool :=
       else go false r
   go true rid
 
-def strPanic (s : St) (w : String) : Step := .panic s (.str (str w))
+def strPanic (s : St) (_w : String) : Step := .panic s .lib
 
 def addAll (s : St) (es : List Eff) : St := { s with effs := s.effs ++ es }
 
-def refObj (rid : Str) : Str := obj [(str "rid", q rid)]
+def refObj (rid : Str) : Str := obj [(b!"rid", q rid)]
 
 /-- one action of a handler script -/
 def act (cfg : HCfg) (r : ReqIn) (s : St) : Action → Step
   | .ok v =>
     match v, metaOf s with
-    | none, none => reply s (str "{\"result\":null}")
-    | none, some m => success s (rawJV (str "null")) (some m)
+    | none, none => reply s (respResult b!"null" none)
+    | none, some m => success s (rawJV (b!"null")) (some m)
     | some v, m => success s v m
   | .resource rid =>
-    if !isValidRIDB rid then .panic s (.str (str "res: invalid resource ID: " ++ rid))
-    else reply s (withMeta [(str "resource", refObj rid)] (metaOf s))
+    if !isValidRIDB rid then .panic s .lib
+    else reply s (withMeta [(b!"resource", refObj rid)] (metaOf s))
   | .error e => let (c, m) := errVParts e; reply s (respError c m (metaOf s))
-  | .notFound => reply s (respError codeNotFound (str "Not found") (metaOf s))
-  | .methodNotFound => reply s (respError codeMethodNotFound (str "Method not found") (metaOf s))
+  | .notFound => reply s (respError codeNotFound (b!"Not found") (metaOf s))
+  | .methodNotFound => reply s (respError codeMethodNotFound (b!"Method not found") (metaOf s))
   | .invalidParams msg =>
-    reply s (respError codeInvalidParams (if msg.isEmpty then str "Invalid parameters" else msg) (metaOf s))
+    reply s (respError codeInvalidParams (if msg.isEmpty then b!"Invalid parameters" else msg) (metaOf s))
   | .invalidQuery msg =>
-    reply s (respError codeInvalidQuery (if msg.isEmpty then str "Invalid query" else msg) (metaOf s))
-  | .accessDenied => reply s (respError codeAccessDenied (str "Access denied") (metaOf s))
-  | .accessGranted => reply s (respResult (obj [(str "call", jstr "*"), (str "get", str "true")]) (metaOf s))
+    reply s (respError codeInvalidQuery (if msg.isEmpty then b!"Invalid query" else msg) (metaOf s))
+  | .accessDenied => reply s (respError codeAccessDenied (b!"Access denied") (metaOf s))
+  | .accessGranted => reply s (respResult (obj [(b!"call", q (b!"*")), (b!"get", b!"true")]) (metaOf s))
   | .access get call =>
-    if !get ∧ call.isEmpty then reply s (respError codeAccessDenied (str "Access denied") (metaOf s))
-    else reply s (respResult (obj ((if call.isEmpty then [] else [(str "call", q call)]) ++
-                                   (if get then [(str "get", str "true")] else []))) (metaOf s))
+    if !get ∧ call.isEmpty then reply s (respError codeAccessDenied (b!"Access denied") (metaOf s))
+    else reply s (respResult (obj ((if call.isEmpty then [] else [(b!"call", q call)]) ++
+                                   (if get then [(b!"get", b!"true")] else []))) (metaOf s))
   | .model v query =>
-    if v.ok then reply s (respResult (obj ([(str "model", v.text)] ++ (if query.isEmpty then [] else [(str "query", q query)]))) none)
+    if v.ok then reply s (respResult (obj ([(b!"model", v.text)] ++ (if query.isEmpty then [] else [(b!"query", q query)]))) none)
     else reply s (respError codeInternal goErr none)
   | .collection v query =>
-    if v.ok then reply s (respResult (obj ([(str "collection", v.text)] ++ (if query.isEmpty then [] else [(str "query", q query)]))) none)
+    if v.ok then reply s (respResult (obj ([(b!"collection", v.text)] ++ (if query.isEmpty then [] else [(b!"query", q query)]))) none)
     else reply s (respError codeInternal goErr none)
   | .new rid =>
-    if !isValidRIDB rid then .panic s (.str (str "res: invalid reference RID: " ++ rid))
+    if !isValidRIDB rid then .panic s .lib
     else reply s (respResult (refObj rid) none)
   | .timeout ms =>
     if ms < 0 then strPanic s "res: negative timeout duration"
-    else .cont (emit s (.pub replySubj (str "timeout:\"" ++ intText ms ++ [34])))
+    else .cont (emit s (.pub replySubj (b!"timeout:\"" ++ intText ms ++ [34])))
   | .change props =>
     if cfg.typ = 2 then strPanic s "res: change event not allowed on Collections"
     else if props.isEmpty then .cont s
     else
       let s1 := if cfg.applyChange = .absent then s else emit s (.apply "change")
       match cfg.applyChange with
-      | .err => .panic s1 (.err (.go (str "apply failed")))
+      | .err => .panic s1 (.err (.go (b!"apply failed")))
       | .okEmpty => .cont s1
       | _ =>
         let allOk := props.all (·.2.ok)
-        let payload : JV := ⟨allOk, obj [(str "values", obj (sortMs (props.map fun (k, v) => (k, v.text))))]⟩
-        let s2 := svcEvent s1 (evSubj r (str "change")) (some payload)
-        .cont (addAll s2 (listenersOf cfg (str "change")))
+        let payload : JV := ⟨allOk, obj [(b!"values", obj (sortMs (props.map fun (k, v) => (k, v.text))))]⟩
+        let s2 := svcEvent s1 (evSubj r (b!"change")) (some payload)
+        .cont (addAll s2 (listenersOf cfg (b!"change")))
   | .add v idx =>
     if cfg.typ = 1 then strPanic s "res: add event not allowed on models"
     else if idx < 0 then strPanic s "res: add event idx less than zero"
     else
       let s1 := if cfg.applyAdd = .absent then s else emit s (.apply "add")
-      if cfg.applyAdd = .err then .panic s1 (.err (.go (str "apply failed")))
+      if cfg.applyAdd = .err then .panic s1 (.err (.go (b!"apply failed")))
       else
-        let payload : JV := ⟨v.ok, obj [(str "idx", intText idx), (str "value", v.text)]⟩
-        .cont (addAll (svcEvent s1 (evSubj r (str "add")) (some payload)) (listenersOf cfg (str "add")))
+        let payload : JV := ⟨v.ok, obj [(b!"idx", intText idx), (b!"value", v.text)]⟩
+        .cont (addAll (svcEvent s1 (evSubj r (b!"add")) (some payload)) (listenersOf cfg (b!"add")))
   | .remove idx =>
     if cfg.typ = 1 then strPanic s "res: remove event not allowed on models"
     else if idx < 0 then strPanic s "res: remove event idx less than zero"
     else
       let s1 := if cfg.applyRemove = .absent then s else emit s (.apply "remove")
-      if cfg.applyRemove = .err then .panic s1 (.err (.go (str "apply failed")))
+      if cfg.applyRemove = .err then .panic s1 (.err (.go (b!"apply failed")))
       else
-        .cont (addAll (svcEvent s1 (evSubj r (str "remove")) (some ⟨true, obj [(str "idx", intText idx)]⟩)) (listenersOf cfg (str "remove")))
+        .cont (addAll (svcEvent s1 (evSubj r (b!"remove")) (some ⟨true, obj [(b!"idx", intText idx)]⟩)) (listenersOf cfg (b!"remove")))
   | .create _ =>
     let s1 := if cfg.applyCreate = .absent then s else emit s (.apply "create")
-    if cfg.applyCreate = .err then .panic s1 (.err (.go (str "apply failed")))
-    else .cont (addAll (svcEvent s1 (evSubj r (str "create")) none) (listenersOf cfg (str "create")))
+    if cfg.applyCreate = .err then .panic s1 (.err (.go (b!"apply failed")))
+    else .cont (addAll (svcEvent s1 (evSubj r (b!"create")) none) (listenersOf cfg (b!"create")))
   | .delete =>
     let s1 := if cfg.applyDelete = .absent then s else emit s (.apply "delete")
-    if cfg.applyDelete = .err then .panic s1 (.err (.go (str "apply failed")))
-    else .cont (addAll (svcEvent s1 (evSubj r (str "delete")) none) (listenersOf cfg (str "delete")))
+    if cfg.applyDelete = .err then .panic s1 (.err (.go (b!"apply failed")))
+    else .cont (addAll (svcEvent s1 (evSubj r (b!"delete")) none) (listenersOf cfg (b!"delete")))
   | .custom name payload =>
     if reserved.contains name then strPanic s "res: reserved event name"
     else if !isValidPartB name then strPanic s "res: invalid event name"
     else .cont (addAll (svcEvent s (evSubj r name) payload) (listenersOf cfg name))
-  | .reaccess => .cont (emit s (.pub (evSubj r (str "reaccess")) []))
+  | .reaccess => .cont (emit s (.pub (evSubj r (b!"reaccess")) []))
   | .tokenEvent v =>
     let payload : JV := match v with
-      | none => ⟨true, obj [(str "token", str "null")]⟩
-      | some v => ⟨v.ok, obj [(str "token", v.text)]⟩
-    .cont (svcEvent s (str "conn." ++ r.cid ++ str ".token") (some payload))
+      | none => ⟨true, obj [(b!"token", b!"null")]⟩
+      | some v => ⟨v.ok, obj [(b!"token", v.text)]⟩
+    .cont (svcEvent s (b!"conn." ++ r.cid ++ b!".token") (some payload))
   | .setStatus code =>
     if !r.isHTTP then strPanic s "call to SetResponseStatus when IsHTTP is false"
     else if s.replied then strPanic s "call to SetResponseStatus after reply"
@@ -313,7 +319,7 @@ def act (cfg : HCfg) (r : ReqIn) (s : St) : Action → Step
   | .parseParams succeeds =>
     match r.rawParams with
     | none => .cont s
-    | some t => if t.isEmpty ∨ succeeds then .cont s else .panic s (.err (.res codeInvalidParams goErr))
+    | some t => if t.isEmpty ∨ succeeds ∨ t = b!"null" then .cont s else .panic s (.err (.res codeInvalidParams goErr))
 
 /-- run a script until it ends or panics -/
 def runScript (cfg : HCfg) (r : ReqIn) : St → List Action → Step
@@ -332,10 +338,11 @@ def recoverArm (s : St) (p : PanicV) : St :=
   if s.replied then s
   else match p with
     | .err e => let (c, m) := errVParts e; errorReply s c m (metaOf s)
+    | .lib => errorReply s codeInternal (b!"<lib-panic>") (metaOf s)
     | .str msg => errorReply s codeInternal (internalMsg msg) (metaOf s)
     | .other t => errorReply s codeInternal (internalMsg t) (metaOf s)
 
-def missingResponse : Str := respError codeInternal (str "Internal error: missing response") none
+def missingResponse : Str := respError codeInternal (b!"Internal error: missing response") none
 
 /-- which handler (if any) `executeHandler` invokes -/
 inductive Pick | none | noReplyAtAll | reply (payload : Str) | invoke (kind : String)
@@ -343,16 +350,16 @@ inductive Pick | none | noReplyAtAll | reply (payload : Str) | invoke (kind : St
 def pick (cfg : HCfg) (r : ReqIn) : Pick :=
   match r.rtype with
   | .access => if cfg.hasAccess then .invoke "access" else .noReplyAtAll
-  | .get => if cfg.hasGet then .invoke "get" else .reply (respError codeNotFound (str "Not found") Option.none)
+  | .get => if cfg.hasGet then .invoke "get" else .reply (respError codeNotFound (b!"Not found") Option.none)
   | .call =>
-    if r.method = str "new" ∧ cfg.hasNew then .invoke "new"
+    if r.method = b!"new" ∧ cfg.hasNew then .invoke "new"
     else if cfg.call.contains r.method then .invoke "call"
     else if cfg.call.contains [42] then .invoke "call*"
-    else .reply (respError codeMethodNotFound (str "Method not found") Option.none)
+    else .reply (respError codeMethodNotFound (b!"Method not found") Option.none)
   | .auth =>
     if cfg.auth.contains r.method then .invoke "auth"
     else if cfg.auth.contains [42] then .invoke "auth*"
-    else .reply (respError codeMethodNotFound (str "Method not found") Option.none)
+    else .reply (respError codeMethodNotFound (b!"Method not found") Option.none)
 
 def encSeen (kind : String) (r : ReqIn) : Str :=
   str kind ++ 124 :: r.rname ++ 124 :: r.method ++ 124 :: r.query ++ 124 :: r.cid ++ 124 ::
@@ -361,7 +368,7 @@ def encSeen (kind : String) (r : ReqIn) : Str :=
 
 /-- `processRequest` + `executeHandler`: all observable effects of one request -/
 def process (cfg : HCfg) (r : ReqIn) (script : List Action) : List Eff :=
-  if !r.found then [.pub replySubj (respError codeNotFound (str "Not found") none)]
+  if !r.found then [.pub replySubj (respError codeNotFound (b!"Not found") none)]
   else if r.payload = .bad then [.pub replySubj (respError codeInternal goErr none)]
   else
     -- an empty payload leaves every request field at its zero value
@@ -387,7 +394,7 @@ def splitSubject (subj : Str) : Option (Str × Str × Str) :=
   if rtype.length = subj.length then none
   else
     let rname := subj.drop (rtype.length + 1)
-    if rtype = str "call" ∨ rtype = str "auth" then
+    if rtype = b!"call" ∨ rtype = b!"auth" then
       -- strings.LastIndexByte(rname, '.')
       let rev := rname.reverse
       let m := rev.takeWhile (· ≠ 46)
@@ -396,7 +403,38 @@ def splitSubject (subj : Str) : Option (Str × Str × Str) :=
     else some (rtype, rname, [])
 
 def rtypeOf (t : Str) : Option RType :=
-  if t = str "access" then some .access else if t = str "get" then some .get
-  else if t = str "call" then some .call else if t = str "auth" then some .auth else none
+  if t = b!"access" then some .access else if t = b!"get" then some .get
+  else if t = b!"call" then some .call else if t = b!"auth" then some .auth else none
+
+end GoRes.Req
+
+namespace GoRes.Req
+open GoRes
+
+/-! ## specification-side vocabulary (used by the property theorems and by the driver's judges) -/
+
+/-- a pre-response: `timeout:"<ms>"` -/
+def isPre (p : Str) : Bool := (b!"timeout:").isPrefixOf p
+
+/-- the (non-pre-)responses published on the request's reply subject -/
+def responses (log : List Eff) : List Str :=
+  log.filterMap fun e => match e with
+    | .pub s p => if s = replySubj ∧ !isPre p then some p else none
+    | _ => none
+
+/-- all effects of a state are kept by later steps -/
+def stepSt : Step → St
+  | .cont s => s
+  | .panic s _ => s
+
+/-- the only request that may stay unanswered -/
+def Unanswered (cfg : HCfg) (r : ReqIn) : Prop :=
+  r.rtype = .access ∧ r.found = true ∧ r.payload ≠ .bad ∧ cfg.hasAccess = false
+
+/-- is an action a responder (it answers the request when nothing was answered before)? -/
+def Action.isResponder : Action → Bool
+  | .ok _ | .resource _ | .error _ | .notFound | .methodNotFound | .invalidParams _ | .invalidQuery _
+  | .access _ _ | .accessDenied | .accessGranted | .model _ _ | .collection _ _ | .new _ => true
+  | _ => false
 
 end GoRes.Req
